@@ -5,7 +5,7 @@ ID = "C18"
 BOUNDS = {
     "quick": "partition_by_column on n<=4 (source, destination, volume) triples whose well ids are symbolic character vectors [A-Z][0-9][0-9] (column 01..99, every "
              "character a symbolic code point) and whose volumes are symbolic reals; both modes plus an invalid mode name and n=0; each path is one grouping / "
-             "ordering pattern and covers every assignment of rows and columns consistent with it; optimize_partition_by for the four trough combinations x "
+             "ordering pattern and covers every assignment of rows and columns consistent with it; optimize_partition_by for all combinations of {plate, one-row plate, Trough, trough declared via Labware(virtual_rows=...)} x "
              "{'auto','source','destination', invalid names}",
     "thorough": "n<=5",
 }
@@ -85,10 +85,21 @@ def scenario(ctx, p):
     if p["part"] == "optimize":
         ns = common.rt()
         from robotools.worklists.utils import optimize_partition_by
-        skind = ctx.choose("src", ["plate", "trough"])
-        dkind = ctx.choose("dst", ["plate", "trough"])
+        # "ltrough": a trough declared through the generic constructor (virtual_rows), "trough": the Trough class, "plate1": a one-row plate
+        skind = ctx.choose("src", ["plate", "trough", "ltrough", "plate1"])
+        dkind = ctx.choose("dst", ["plate", "trough", "ltrough", "plate1"])
         mode = ctx.choose("mode", ["auto", "source", "destination", "Source", "", "column", None])
-        mk = lambda k, n: ns.Labware(n, 2, 2, min_volume=0, max_volume=10) if k == "plate" else ns.Trough(n, 2, 2, min_volume=0, max_volume=10)
+        def mk(k, n):
+            import warnings
+            if k == "plate":
+                return ns.Labware(n, 2, 2, min_volume=0, max_volume=10)
+            if k == "plate1":
+                return ns.Labware(n, 1, 2, min_volume=0, max_volume=10)
+            if k == "trough":
+                return ns.Trough(n, 2, 2, min_volume=0, max_volume=10)
+            with warnings.catch_warnings():
+                warnings.simplefilter("ignore")
+                return ns.Labware(n, 1, 2, min_volume=0, max_volume=10, virtual_rows=2)
         c.update(skind=skind, dkind=dkind, mode=mode)
         return optimize_partition_by(mk(skind, "S"), mk(dkind, "D"), mode, "label")
     from robotools.worklists.utils import partition_by_column
@@ -130,7 +141,8 @@ def judge(ctx, p, outcome):
         if mode not in ("auto", "source", "destination"):
             ctx.violate(f"C18: optimize_partition_by accepted the invalid mode {mode!r}")
             return
-        want = mode if mode != "auto" else ("destination" if (c["skind"] == "trough" and c["dkind"] != "trough") else "source")
+        st, dt = c["skind"] in ("trough", "ltrough"), c["dkind"] in ("trough", "ltrough")
+        want = mode if mode != "auto" else ("destination" if (st and not dt) else "source")
         if val != want:
             ctx.violate(f"C18: optimize_partition_by({c['skind']}, {c['dkind']}, {mode!r}) = {val!r} instead of {want!r}")
         return
